@@ -130,6 +130,14 @@ func (a *AggchainProverFlow) CheckInitialStatus(ctx context.Context) error {
 	// if there are gaps with bridge transactions, we can not allow the start of aggsender
 	startL2Block := a.baseFlow.StartL2Block()
 
+	// the check is about the junction between the last certificate sent before the start L2 block and the start L2
+	// block. A last certificate that already reaches the start L2 block (every start after the first certificate of
+	// this flow) leaves no such junction: the blocks between the start L2 block and that certificate were covered by
+	// the certificates before it, and their bridges are not "new bridges in a gap"
+	if lastSentCertificate != nil && lastSentCertificate.ToBlock >= startL2Block {
+		return nil
+	}
+
 	// we need to wait for the syncer to catch up to the start L2 block (start FEP block)
 	// in order to check if there are any bridge transactions in the gap
 	if err := a.l2BridgeQuerier.WaitForSyncerToCatchUp(ctx, startL2Block); err != nil {
